@@ -51,9 +51,15 @@ func underBaton(seed uint64, body func() int) int {
 					break
 				}
 			}
+			t0 := zzsimrt.Total()
 			who, kind := zzsimrt.Grant(next, 0)
 			for _, id := range zzsimrt.TakeSpawned() {
 				live[id] = true
+			}
+			if zzsimrt.Total() != t0 {
+				// it did something before it blocked again: progress
+				blocked = map[int]bool{}
+				streak = 0
 			}
 			if who != next {
 				// the client asked again completed a rendezvous: progress
@@ -103,9 +109,17 @@ func underBaton(seed uint64, body func() int) int {
 		if len(live) > 1 {
 			slice = int64(r.Range(200, 30000))
 		}
+		t0 := zzsimrt.Total()
 		who, kind := zzsimrt.Grant(pick, slice)
 		for _, id := range zzsimrt.TakeSpawned() {
 			live[id] = true
+		}
+		if zzsimrt.Total() != t0 {
+			// whatever it reports now, it executed library code first: a
+			// client that consumes, computes and blocks again is not "still
+			// blocked"
+			blocked = map[int]bool{}
+			streak = 0
 		}
 		if who != pick {
 			// a rendezvous on an unbuffered channel passed the baton on: progress
